@@ -123,6 +123,56 @@ pub fn record_compile(regex: &str, unicode: bool, ignore_case: bool) {
     COMPILES.with(|c| c.borrow_mut().push(line));
 }
 
+thread_local! {
+    static DFAD: std::cell::RefCell<String> = const { std::cell::RefCell::new(String::new()) };
+}
+
+/// The transition table of the DFA as regex-automata built it, restricted to the states reachable from the
+/// start state (lines DFADEF, DROW: id, end-of-input successor, matching leaves, the 256 byte successors
+/// run-length encoded).  The traversal here is the hook's own; it uses nothing of `graph::dfa_util`.
+pub fn record_dfa(dfa: &regex_automata::dfa::dense::DFA<Vec<u32>>, start: regex_automata::util::primitives::StateID) {
+    use regex_automata::dfa::Automaton;
+    let mut seen = std::collections::BTreeSet::new();
+    let mut stack = vec![start];
+    seen.insert(start);
+    while let Some(s) = stack.pop() {
+        for b in 0..=255u8 {
+            let t = dfa.next_state(s, b);
+            if seen.insert(t) {
+                stack.push(t);
+            }
+        }
+        let t = dfa.next_eoi_state(s);
+        if seen.insert(t) {
+            stack.push(t);
+        }
+    }
+    let mut out = String::new();
+    writeln!(out, "DFADEF {} {}", seen.len(), start.as_usize()).unwrap();
+    for &s in &seen {
+        write!(out, "DROW {} {}", s.as_usize(), dfa.next_eoi_state(s).as_usize()).unwrap();
+        let n = if dfa.is_match_state(s) { dfa.match_len(s) } else { 0 };
+        write!(out, " {}", n).unwrap();
+        for i in 0..n {
+            write!(out, " {}", dfa.match_pattern(s, i).as_usize()).unwrap();
+        }
+        let mut runs: Vec<(usize, usize)> = Vec::new();
+        for b in 0..=255u8 {
+            let t = dfa.next_state(s, b).as_usize();
+            match runs.last_mut() {
+                Some((id, len)) if *id == t => *len += 1,
+                _ => runs.push((t, 1)),
+            }
+        }
+        write!(out, " {}", runs.len()).unwrap();
+        for (id, len) in runs {
+            write!(out, " {} {}", id, len).unwrap();
+        }
+        out.push('\n');
+    }
+    DFAD.with(|d| *d.borrow_mut() = out);
+}
+
 /// Forget match lists left over from a run that did not reach `record_raw` (a panic).
 pub fn reset_matches() {
     MATCHES.with(|m| m.borrow_mut().clear());
@@ -137,7 +187,7 @@ pub fn record_matches(state: usize, leaves: Vec<usize>) {
 /// The graph as built from the DFA, before the early-accept / late-accept / pruning / de-duplication
 /// passes of `Graph::new` (lines RAWDEF, RSTATE, REDGE; emitted in front of the final dump).
 pub fn record_raw(graph: &Graph) {
-    let mut out = String::new();
+    let mut out = DFAD.with(|d| std::mem::take(&mut *d.borrow_mut()));
     writeln!(out, "RAWDEF {} {}", graph.iter_states().count(), sid(graph.root())).unwrap();
     for state in graph.iter_states() {
         let sd = graph.get_state(state);
